@@ -135,6 +135,17 @@ CHECKS = {
         'parents. Selector counts are enumerated exhaustively (selector x n x population size x weights x flags). Exploration.',
         'All stochastic leaves seeded; recombinators get two parents; Top/Bottom use an explicit key after DNA-producing ops.',
         'DESIGN.md section 3 C14'),
+    'C15': (
+        'crash-point enumeration (every k in 0..N) over generated algorithm configurations and spaces; differential against the uninterrupted run',
+        'Generated configurations (Sweeping, seeded Random, Deduping over them with max_duplicates / hash_fn variants, regularized '
+        'evolution, hill climb, NSGA2 with tuple rewards, NEAT, Deduping over evolution with and without auto reward), finite spaces, run '
+        'length N<=14 and feedback pipeline depth w<=4. For EVERY crash point k in 0..N a fresh instance set up on the same space '
+        'recovers the first k history records (DNA + metadata + reward or None) persisted through to_json_str/from_json_str and is '
+        'compared with the uninterrupted run at k: proposal/feedback counts, population with fitness, de-duplication memory; for '
+        'Sweeping / seeded Random / Deduping over them also the next 4 proposals. Level: fault enumeration over crash points inside a '
+        'generated (not exhaustive) configuration space.',
+        'A crash = abandoning the instance; history is the only carrier; generation counters / RNG state of selectors not compared; dedup memory read from Deduping._cache; rewards strictly positive.',
+        'DESIGN.md section 3 C15'),
 }
 
 NOT_BUILT = 'check not built yet in this round (planned; see DESIGN.md section 3)'
@@ -153,7 +164,7 @@ def main():
         'evidence_file': 'evidence/%s.json' % pid,
         'replay_cmd_template': './check %s --replay {path}' % pid,
         'engine': 'pgverif',
-        'level_claimed': {'category': 'exploration', 'text': text, 'design_ref': ref},
+        'level_claimed': {'category': 'fault_enumeration' if pid == 'C15' else 'exploration', 'text': text, 'design_ref': ref},
         'level_note': note,
         'technique': tech,
     })
